@@ -673,6 +673,11 @@ def annotate_fn(sf, item, blk, counts, meta, mode, qual_name, extra_ensures=None
         counts.bump(rule, max(cnt, n) if cnt == -1 else cnt)
 
     body = apply_ref_patterns(body, counts)
+    # R4 (generic): `Some(&x) => EXPR,` (single-line arm) -> `Some(x__r) => { let x = *x__r; EXPR },`
+    def _some_ref(m):
+        counts.bump('R4')
+        return '%sSome(%s__r) => { let %s = *%s__r; %s },' % (m.group(1), m.group(2), m.group(2), m.group(2), m.group(3).strip())
+    body = re.sub(r'(?m)^(\s*)Some\(&([A-Za-z_][A-Za-z0-9_]*)\) => ([^\n{]+),\s*$', _some_ref, body)
     # R7 (generic): debug_assert_eq!(a, b) / assert_eq!(a, b) -> debug_assert!(a == b) / assert!(a == b)
     def _eq_sub(m):
         counts.bump('R7')
